@@ -37,7 +37,7 @@ class Gen:
         self.order = ["g"]
         self.txdef = {}            # tx name -> op (for copies)
         self.n = 0
-        self.opts = dict(p_tx=0.7, max_tx=3, p_copy=0.0, p_same_cb=0.0, p_fork=0.4, p_unusual=0.15, max_height=None, zero_rewards=False, p_deep_fork=0.0, deep_min=11, p_sibling=0.0, c05_extra_tags=None,
+        self.opts = dict(p_tx=0.7, max_tx=3, p_copy=0.0, p_same_cb=0.0, p_fork=0.4, p_unusual=0.15, max_height=None, zero_rewards=False, p_deep_fork=0.0, deep_min=11, p_sibling=0.0, c05_extra_tags=None, p_big_block=0.0,
                          prefix="", dts=None)
         self.opts.update(opts)
 
@@ -112,7 +112,7 @@ class Gen:
         """avail: list of (ref, (value, key)) spendable and unused in this block; consumes from it.  `contested`: outputs
         that a DIFFERENT transaction spends on another branch -- preferred half of the time, so that competing branches
         hold conflicting spends of the same output (each valid on its own branch)."""
-        n_in = min(len(avail), self.r.choice([1, 1, 1, 2, 2, 3]))
+        n_in = min(len(avail), self.r.choice([1, 1, 1, 2, 2, 3]) if not getattr(self, "_one_in", False) else 1)
         ins = []
         for _ in range(n_in):
             hot = [j for j, a in enumerate(avail) if a[0] in contested]
@@ -140,12 +140,18 @@ class Gen:
         op = {"label": label, "parent": p.label, "miner": self.r.randrange(N_KEYS), "txs": []}
         op["dt"] = self.choose_dt(p, dt)
         avail = sorted((r, o) for r, o in p.utxo.items() if o[1] is not None and o[0] >= 1)
+        big = False
         if n_tx is None:
             n_tx = 0
             while n_tx < self.opts["max_tx"] and self.r.random() < self.opts["p_tx"]:
                 n_tx += 1
+            if self.opts.get("p_big_block") and len(avail) >= 16 and self.r.random() < self.opts["p_big_block"]:
+                n_tx = self.r.randint(16, min(len(avail), 24))      # a block with many payments (as many as there are outputs to spend)
+                self.big_blocks = getattr(self, "big_blocks", 0) + 1
+                big = True
         fees = 0
         for ti in range(1, n_tx + 1):
+            self._one_in = big
             if self.opts["p_copy"] and self.r.random() < self.opts["p_copy"]:
                 c = self.copy_candidate(p, avail)
                 if c is not None:
@@ -161,6 +167,7 @@ class Gen:
             t, fee = self.honest_tx(label, len(op["txs"]) + 1, avail, contested)
             op["txs"].append(t)
             fees += fee
+        self._one_in = False
         if self.opts["p_same_cb"] and self.r.random() < self.opts["p_same_cb"]:
             sibs = [self.L[l] for l in self.order if self.L[l].parent == p.label and self.L[l].miner is not None]
             if sibs:
